@@ -4,6 +4,7 @@ package codecops
 
 import (
 	"encoding/hex"
+	"math/big"
 	"sort"
 	"time"
 
@@ -70,6 +71,18 @@ func codecCreate(v kmip.ProtocolVersion) *kmip.RequestMessage {
 	}
 }
 
+// codecKey: a Get response carrying a transparent EC private key whose scalar is the given big integer.
+func codecKey(v kmip.ProtocolVersion, d string) *kmip.ResponseMessage {
+	n, _ := new(big.Int).SetString(d, 16)
+	return &kmip.ResponseMessage{
+		Header: kmip.ResponseHeader{ProtocolVersion: v, TimeStamp: time.Unix(1700000003, 0), BatchCount: 1},
+		BatchItem: []kmip.ResponseBatchItem{{Operation: kmip.OperationGet, ResultStatus: kmip.ResultStatusSuccess, ResponsePayload: &payloads.GetResponsePayload{
+			ObjectType: kmip.ObjectTypePrivateKey, UniqueIdentifier: "k",
+			Object: &kmip.PrivateKey{KeyBlock: kmip.KeyBlock{KeyFormatType: kmip.KeyFormatTypeTransparentECPrivateKey, CryptographicAlgorithm: kmip.CryptographicAlgorithmEC, CryptographicLength: 256,
+				KeyValue: &kmip.KeyValue{Plain: &kmip.PlainKeyValue{KeyMaterial: kmip.KeyMaterial{TransparentECPrivateKey: &kmip.TransparentECPrivateKey{RecommendedCurve: kmip.RecommendedCurveP_256, D: *n}}}}}}}}},
+	}
+}
+
 type CodecOp struct {
 	Name string
 	Run  func() string
@@ -109,6 +122,15 @@ var Ops = map[string]func() string{
 	"dec-trunc-req12-ttlv":   func() string { return decReq(In.BinReq12[:len(In.BinReq12)-20], ttlv.UnmarshalTTLV) },
 	"dec-trunc-resp13-xml":   func() string { return decResp(In.XmlResp13[:len(In.XmlResp13)*2/3], ttlv.UnmarshalXML) },
 	"dec-trunc-create14-json": func() string { return decReq(In.JsonCr14[:len(In.JsonCr14)*2/3], ttlv.UnmarshalJSON) },
+	// transparent keys: big integers encoded by two threads at once must not mix
+	"enc-eckey-a-ttlv": func() string {
+		return hx(ttlv.MarshalTTLV(codecKey(kmip.V1_4, "80aaaaaaaaaaaaaaaaaaaaaaaaaaaaaaaaaaaaaaaaaaaaaaaaaaaaaaaaaaaaaa01")))
+	},
+	"enc-eckey-b-ttlv": func() string { return hx(ttlv.MarshalTTLV(codecKey(kmip.V1_4, "7f5555555555555555555555555555555555555555555555555555555555"))) },
+	"enc-eckey-b-xml":  func() string { return string(ttlv.MarshalXML(codecKey(kmip.V1_3, "7f5555555555555555555555555555555555555555555555555555555555"))) },
+	"enc-eckey-a-json": func() string {
+		return string(ttlv.MarshalJSON(codecKey(kmip.V1_4, "80aaaaaaaaaaaaaaaaaaaaaaaaaaaaaaaaaaaaaaaaaaaaaaaaaaaaaaaaaaaaaa01")))
+	},
 	"reuse-10-then-14": func() string {
 		enc := ttlv.NewTTLVEncoder()
 		enc.Any(codecReq(kmip.V1_0, "a"))
